@@ -30,7 +30,7 @@ structural clauses are:
   (+ C06.O local addressing and C10.W operand decoding, shared, see those properties)
 """
 from cao.facts import AnchorMissing, hir_walk, hir_callee, hir_strip, hir_local_id, pat_variants, short
-from cao.rules import Rule, ok, bad, undecided, note
+from cao.rules import Rule, ok, bad, undecided, note, shared
 from cao import hirutil as hu
 from cao import compwalk as cw
 from cao import cardshape as cs
@@ -90,7 +90,8 @@ def arm_emissions(F):
 
 
 def vm_arm_bodies(F):
-    f = F.fn("vm::Vm::_run")
+    from rules.c10 import dispatch_fn as _dispatch_fn
+    f = _dispatch_fn(F)
     out = {}
     for x in hir_walk(f.hir["body"]):
         if x.get("k") == "match" and len(x["arms"]) > 20:
@@ -535,7 +536,13 @@ def rule_v(F):
     return sc.rule_innermost(F, "C01.V", "compiler::Compiler::resolve_var", "locals", "C01/V/resolve_var")
 
 
+def _c19_rule_x(F):
+    from rules import c19 as _c19
+    return _c19.rule_x(F)
+
+
 RULES = [
+    Rule("C01.Q", shared(_c19_rule_x, "C19.X", "C01.Q"), 2, "Equals / NotEquals on numbers is exact equality (shared with C19.X)"),
     Rule("C01.I", rule_i, 5, "loop locals are stored into their slots before the loop code reads them"),
     Rule("C01.T", rule_t, 36, "operator cards -> like-named instruction -> like operator"),
     Rule("C01.O", rule_o, 10, "operand order of binary operators"),
